@@ -58,4 +58,38 @@ CanOmitId(ln) == ln.t = "comp" /\ ln.c.kind \in {"USED", "PROD", "AUX"} /\ ln.c.
 ToggleId0(f, i) == [f EXCEPT !.lines[i].omitId = ~f.lines[i].omitId]
 
 IsCompLine(f, i) == f.lines[i].t = "comp"
+
+(***************************************************************************)
+(* Print / Parse of one component line as a sequence of fields (Display    *)
+(* and FromStr of EUsed, EProd, EAux, EOut, Needs).  Values are integers   *)
+(* in hundredths (the printed precision); ids are integers; the other      *)
+(* fields are tag strings.  An AUX line carries no service: it is read     *)
+(* back with the service NEPB and re-assigned by the normalisation.        *)
+(***************************************************************************)
+\* a field is <<"i", integer>> or <<"s", tag string>> (TLC cannot compare integers with strings)
+FI(n) == <<"i", n>>
+FS(x) == <<"s", x>>
+FVals(v) == [t \in 1..Len(v) |-> FI(v[t])]
+PrintLine(c) ==
+  CASE c.kind = "USED" -> <<FI(c.id), FS("CONSUMO"), FS(c.srv), FS(c.cr)>> \o FVals(c.v)
+    [] c.kind = "PROD" -> <<FI(c.id), FS("PRODUCCION"), FS(c.src)>> \o FVals(c.v)
+    [] c.kind = "AUX" -> <<FI(c.id), FS("AUX")>> \o FVals(c.v)
+    [] c.kind = "OUT" -> <<FI(c.id), FS("SALIDA"), FS(c.srv)>> \o FVals(c.v)
+    [] OTHER -> <<FS("DEMANDA"), FS(c.srv)>> \o FVals(c.v)
+\* fields -> component; the id may be omitted (legacy lines) except for SALIDA; <<>> = not a component line
+ParseFields(fs) ==
+  IF Len(fs) < 2 THEN <<>>
+  ELSE LET hasId == fs[1][1] = "i"
+           id == IF hasId THEN fs[1][2] ELSE 0
+           b == IF hasId THEN 2 ELSE 1
+           tag == IF fs[b][1] = "s" THEN fs[b][2] ELSE "?"
+           str(k) == IF Len(fs) >= b + k /\ fs[b + k][1] = "s" THEN fs[b + k][2] ELSE "?"
+           vals(k) == LET r == SubSeq(fs, b + k, Len(fs)) IN [t \in 1..Len(r) |-> r[t][2]]
+           allInt(k) == \A t \in (b + k)..Len(fs) : fs[t][1] = "i"
+       IN CASE tag = "CONSUMO" /\ allInt(3) -> [kind |-> "USED", id |-> id, cr |-> str(2), srv |-> str(1), src |-> "-", v |-> vals(3), cm |-> ""]
+            [] tag = "PRODUCCION" /\ allInt(2) -> [kind |-> "PROD", id |-> id, cr |-> "-", srv |-> "-", src |-> str(1), v |-> vals(2), cm |-> ""]
+            [] tag = "AUX" /\ allInt(1) -> [kind |-> "AUX", id |-> id, cr |-> "-", srv |-> "NEPB", src |-> "-", v |-> vals(1), cm |-> ""]
+            [] tag = "SALIDA" /\ hasId /\ allInt(2) -> [kind |-> "OUT", id |-> id, cr |-> "-", srv |-> str(1), src |-> "-", v |-> vals(2), cm |-> ""]
+            [] tag = "DEMANDA" /\ ~hasId /\ allInt(2) -> [kind |-> "NEED", id |-> 0, cr |-> "-", srv |-> str(1), src |-> "-", v |-> vals(2), cm |-> ""]
+            [] OTHER -> <<>>
 =============================================================================
